@@ -56,9 +56,11 @@ var (
 func EnvNames(tier string) []string {
 	// bgv-1p: one special prime (single-P gadget product / RGSW paths); rlwe-pow2: one special prime and
 	// a power-of-two gadget decomposition
-	n := []string{"bgv", "bfv", "ckks", "rlwe", "rlwe-coef", "bgv-1p", "rlwe-pow2"}
+	// ckks-prec: the ckks encoder (stand-alone and inside the evaluator) in arbitrary precision (128 bits):
+	// big.Float / bignum.Complex scratch buffers and the embedArbitrary / big-number FFT code paths
+	n := []string{"bgv", "bfv", "ckks", "rlwe", "rlwe-coef", "bgv-1p", "rlwe-pow2", "ckks-prec"}
 	if tier == "thorough" {
-		n = append(n, "ckks-1p", "ckks-prec")
+		n = append(n, "ckks-1p")
 	}
 	return n
 }
